@@ -1,5 +1,8 @@
 """C11 check configuration (see lib/runner.py for the meaning of the keys)."""
 
+OVERLAY = {"internal/rules/mechanisms/zz_verif_c11_test.go": "c11/c11_test.go",
+           "internal/rules/mechanisms/zz_verif_c11_keys_test.go": "c11/c11_keys_test.go"}
+
 P = {
     "id": "C11",
     "claimed": True,
@@ -9,13 +12,18 @@ P = {
                  "C11_key_injective", "C11_cache_transparent", "C11_nonvacuous",
                  "C11_cache_transparent_if_compatible", "C11_shared_key_changes_decision",
                  "C11_identical_requests_hit",
-                 "C11_F2_refuted", "C11_F3_refuted", "C11_F4_history_refuted", "C11_F6_refuted", "C11_F7_refuted"],
+                 "C11_F2_refuted", "C11_F3_refuted", "C11_F4_history_refuted", "C11_F6_refuted", "C11_F7_refuted",
+                 "C11_cc_cache_transparent", "C11_cc_F4_refuted", "C11_jf_cache_transparent", "C11_F5_refuted"],
     "streams": [{
         "name": "histories", "pkg": "./internal/rules/mechanisms", "test": "TestVerifC11",
-        "overlay": {"internal/rules/mechanisms/zz_verif_c11_test.go": "c11/c11_test.go"},
-        "eval_module": "Run.Eval_C11", "check_term": "check",
-        "n_quick": 1000, "n_thorough": 30000, "shard": 64,
+        "overlay": OVERLAY, "eval_module": "Run.Eval_C11", "check_term": "check",
+        "n_quick": 1000, "n_thorough": 12000, "shard": 64,
         "findings": {1: "C11-F1", 2: "C11-F2", 3: "C11-F3", 4: "C11-F4", 6: "C11-F6", 7: "C11-F7"},
+    }, {
+        "name": "keys", "pkg": "./internal/rules/mechanisms", "test": "TestVerifC11Keys",
+        "overlay": OVERLAY, "eval_module": "Run.Eval_C11", "check_term": "check2",
+        "n_quick": 400, "n_thorough": 6000, "shard": 64,
+        "findings": {4: "C11-F4", 5: "C11-F5"},
     }],
     "rule": "histories of 2-6 executions of REAL caching mechanisms (oauth2_introspection and generic authenticators, remote "
             "authorizer, generic contextualizer) created by the real mechanism factory from a generated prototype (0-3 endpoint "
